@@ -3,7 +3,8 @@ import json, os
 V = os.path.dirname(os.path.dirname(os.path.abspath(__file__)))
 props = [json.loads(l) for l in open(os.path.join(V, "properties.jsonl"))]
 CHECKS = {
- "C04": dict(text="Lean 4 theorems (sign_spec, sign_bytes, sign_rejects, sign_prefix, sign_total) about a line-by-line model of "
+ "C04": dict(text="Lean 4 theorems (sign_spec, sign_bytes, sign_rejects, sign_prefix, sign_total, spelling_lower / spelling_upper / sign_upper for "
+                  "the two case spellings of every byte string) about a line-by-line model of "
                   "sign_packet_with_crc_key for ALL strings, against an independent bit-serial CRC-16; the model is tied to the "
                   "code by a differential correspondence stream (exhaustive on byte strings of length 0..1 / 0..2) and the real "
                   "function is judged directly against the Spec on every generated input.",
@@ -164,7 +165,11 @@ CHECKS = {
                   "number of ports and every interference by other sockets: inv_run (is_running <=> every configured port is held; not "
                   "running => none is held), stop_silences (after stop no broadcast is delivered, whatever follows until the next start), "
                   "stop_releases, failed_start_clean (a failed start changes nothing and leaves no port held), start_fails_iff, "
-                  "stop_idempotent, restartable. What a theorem cannot carry (that closing a transport releases the OS port and that a bound "
+                  "stop_idempotent, restartable; code_refines / code_inv / code_stop_closes: a second model at the granularity of the code "
+                  "(the `_transports` dictionary, the bind loop with `started_ports`, the rollback, stop's test) refines the abstract machine "
+                  "for every action sequence; foreign_is_invisible (what another bridge object does changes nothing). Configured port 0: "
+                  "startZ_eq (configurations without port 0 are unaffected) and zero_port_leak - the OPEN finding F9 (start while running "
+                  "with port 0 leaks a socket), printed as KNOWN-FINDING and listed in known_findings.json. What a theorem cannot carry (that closing a transport releases the OS port and that a bound "
                   "port receives datagrams) is observed by the correspondence on a REAL SwitcherBridge over loopback UDP after every action.",
              note="Trusted: Lean kernel (propext, Classical.choice, Quot.sound); hand model of start/stop tied by correspondence only "
                   "(no translator for this part); OS/asyncio socket behaviour observed, not proved.",
@@ -176,7 +181,8 @@ CHECKS = {
                   "body exception inside `async with`; on any runtime for sequences that do not connect over an open connection) and "
                   "sockets_exactly_all (the same for ALL sequences on a runtime that closes the transport of an unreferenced StreamWriter, "
                   "which is what this sandbox's CPython does and the harness observes), disconnect_closes, context_closes (normal and "
-                  "exceptional exit), disconnect_first/twice harmless, refused_connect leaves the client as it was, reconnect works. "
+                  "exceptional exit), disconnect_first/twice harmless, refused_connect leaves the client as it was, reconnect works, "
+                  "foreign_is_invisible (what another client object does - to the same device or not - changes nothing about this one). "
                   "That closing the writer makes the device see end-of-stream is observed by the correspondence against a scripted device on "
                   "REAL loopback TCP (device-side open-connection count after every action), both API types, with and without the "
                   "restriction on connect.",
